@@ -133,6 +133,68 @@ fn client_fields(out: &mut Vec<u8>, c: &MClient, ex: bool) {
 }
 
 /// The datagrams a server sends for this info; part ids are 0..n.
+/// (received mask as the library computes it, client index range) of every part `build_parts` emits
+fn part_layout(cfg: &SbCfg, m: &Model) -> Vec<(u64, usize, usize)> {
+    let mut out = Vec::new();
+    let chunk = cfg.chunk.clamp(1, 24) as usize;
+    let n = m.clients.len();
+    if cfg.format == 0 {
+        let mut off = 0usize;
+        loop {
+            let end = (off + chunk).min(n);
+            let mut mask = 0u64;
+            for j in off..end {
+                if j < 64 {
+                    mask |= 1 << j;
+                }
+            }
+            out.push((mask, off, end));
+            off = end;
+            if off >= n {
+                break;
+            }
+        }
+    } else {
+        let main_n = (cfg.main_clients as usize).min(n);
+        out.push((1, 0, main_n));
+        let mut off = main_n;
+        let mut no = 1;
+        while off < n && no <= 63 {
+            let end = (off + chunk).min(n);
+            out.push((1u64 << no, off, end));
+            off = end;
+            no += 1;
+        }
+        if off < n {
+            out.last_mut().unwrap().2 = n;
+        }
+    }
+    out
+}
+
+/// Executable model of the *listed* defect (KNOWN_FINDINGS C18): `merge` never
+/// records `other.received`, so only the first part's mask (or, after the
+/// extended format's swap, the main part's mask) is remembered. Used only to
+/// decide whether an observed idempotence violation is exactly that defect.
+struct DefectModel {
+    received: u64,
+    merged: Vec<usize>,
+}
+impl DefectModel {
+    fn merge(&mut self, ext: bool, id: usize, mask: u64) {
+        if self.received & mask == mask {
+            return;
+        }
+        if self.received & mask != 0 {
+            return; // OverlappingInfos: never for this traffic
+        }
+        if ext && self.received & 1 == 0 {
+            self.received = mask;
+        }
+        self.merged.push(id);
+    }
+}
+
 fn build_parts(cfg: &SbCfg, m: &Model) -> Vec<Vec<u8>> {
     let mut parts = Vec::new();
     let chunk = cfg.chunk.clamp(1, 24) as usize;
@@ -412,6 +474,9 @@ impl Engine for SbEngine {
         let mut acc: Option<p::PartialServerInfo> = None;
         let mut delivered = vec![0u32; n_parts];
         let mut any_corruption = false;
+        let layout = part_layout(cfg, &m);
+        assert_eq!(layout.len(), n_parts);
+        let mut defect: Option<DefectModel> = None;
         ctx.logf(|| format!("server: format {} with {} clients in {} datagram(s)", if cfg.format == 0 { "legacy-64" } else { "extended" }, m.clients.len(), n_parts));
         for op in &case.ops {
             ctx.ops_executed += 1;
@@ -540,6 +605,10 @@ impl Engine for SbEngine {
                     };
                     if !part.corrupted {
                         delivered[part.id] += 1;
+                        match &mut defect {
+                            None => defect = Some(DefectModel { received: layout[part.id].0, merged: vec![part.id] }),
+                            Some(d) => d.merge(cfg.format != 0, part.id, layout[part.id].0),
+                        }
                     }
                     ctx.logf(|| format!("deliver part {}{}{} -> merge {:?}", part.id, if part.corrupted { " (corrupted)" } else { "" }, if repeated { " (repeated)" } else { "" }, merged));
                     if any_corruption {
@@ -558,13 +627,29 @@ impl Engine for SbEngine {
                         Ok(x) => x,
                         Err(pn) => return Some(v("panic", &[("where", "get_info"), ("message", &pn.msg_class()), ("file", &pn.file_class())], format!("get_info panicked: {} at {}:{}", pn.msg, pn.file, pn.line))),
                     };
+                    // is the observation exactly what the listed defect (merge does not record `received`) predicts?
+                    let cause = {
+                        let d = defect.as_ref().unwrap();
+                        let mut pred: Vec<MClient> = d.merged.iter().flat_map(|&id| m.clients[layout[id].1..layout[id].2].iter().cloned()).collect();
+                        pred.sort();
+                        let pred_complete = pred.len() as i64 == m.num_clients as i64;
+                        let same = match &info {
+                            None => !pred_complete,
+                            Some(x) => {
+                                let mut got: Vec<MClient> = x.clients.iter().map(|c| MClient { name: c.name.to_string(), clan: c.clan.to_string(), country: c.country, score: c.score, is_player: c.flags & p::CLIENTINFO_FLAG_SPECTATOR == 0 }).collect();
+                                got.sort();
+                                pred_complete && got == pred
+                            }
+                        };
+                        if same { "merge-does-not-record-received" } else { "unexplained" }
+                    };
                     if repeated {
                         ctx.count("probe_repeated_part");
                         // merging a repeated part changes nothing
                         if info != before && !(before.is_none() && info.is_none()) || (before.is_none() && info.is_none() && want_complete) {
                             return Some(v(
                                 "repeated-part-changes-result",
-                                &[],
+                                &[("cause", cause)],
                                 format!("merging part {} a second time changed the result: complete before = {}, after = {} ({} clients announced, {} listed after)", part.id, before.is_some(), info.is_some(), m.num_clients, info.as_ref().or(before.as_ref()).map(|x| x.clients.len()).unwrap_or(0)),
                             ));
                         }
@@ -573,13 +658,13 @@ impl Engine for SbEngine {
                         (None, true) => {
                             // distinguish the listed defect (duplicates counted twice) from a different one
                             if delivered.iter().any(|&d| d > 1) {
-                                return Some(v("repeated-part-changes-result", &[], format!("all {} parts were received (some repeatedly: {:?}) but the info is not reported complete", n_parts, delivered)));
+                                return Some(v("repeated-part-changes-result", &[("cause", cause)], format!("all {} parts were received (some repeatedly: {:?}) but the info is not reported complete", n_parts, delivered)));
                             }
                             return Some(v("incomplete-after-all-parts", &[("format", if cfg.format == 0 { "legacy-64" } else { "extended" })], format!("all {} parts were received once ({} clients) but the info is not reported complete", n_parts, m.num_clients)));
                         }
                         (Some(x), false) => {
                             if delivered.iter().any(|&d| d > 1) {
-                                return Some(v("repeated-part-changes-result", &[], format!("the info is reported complete although parts {:?} are missing (repeated parts were counted)", delivered.iter().enumerate().filter(|(_, &d)| d == 0).map(|(k, _)| k).collect::<Vec<_>>())));
+                                return Some(v("repeated-part-changes-result", &[("cause", cause)], format!("the info is reported complete although parts {:?} are missing (repeated parts were counted)", delivered.iter().enumerate().filter(|(_, &d)| d == 0).map(|(k, _)| k).collect::<Vec<_>>())));
                             }
                             return Some(v("complete-too-early", &[], format!("the info is reported complete ({} clients listed, {} announced) although parts {:?} are missing", x.clients.len(), m.num_clients, delivered.iter().enumerate().filter(|(_, &d)| d == 0).map(|(k, _)| k).collect::<Vec<_>>())));
                         }
